@@ -13,7 +13,7 @@ import (
 
 // dispatch: for the switch over tag in function fn, (case label, callee of the clause) pairs;
 // the callee is the single call in the clause whose function name starts with one of prefixes.
-func dispatch(p *srctab.Pkg, fn, tag string, prefixes ...string) srctab.Val {
+func dispatch(p *srctab.Pkg, fn, tag string, prefixes ...string) []srctab.Val {
 	var out []srctab.Val
 	for _, c := range p.Switch(p.Func(fn), tag) {
 		if len(c.Labels) == 0 {
@@ -39,36 +39,36 @@ func dispatch(p *srctab.Pkg, fn, tag string, prefixes ...string) srctab.Val {
 	return srctab.SortedPairs(out)
 }
 
-func strList(p *srctab.Pkg, fn string) srctab.Val {
+func strList(p *srctab.Pkg, fn string) []srctab.Val {
 	f := p.Func(fn)
 	lit := p.One(f, "return []string{…}", func(n ast.Node) bool { _, ok := n.(*ast.CompositeLit); return ok }).(ast.Expr)
 	var out []srctab.Val
 	for _, e := range p.Elems(lit) {
 		out = append(out, srctab.S(p.Eval(e, nil)))
 	}
-	return srctab.L(out...)
+	return out
 }
 
 func table(t *srctab.T) {
 	p := t.R.Pkg("crypto")
 
 	// the Supported…Algorithms lists (order as written)
-	t.Emit("crypto.SupportedSymmetricAlgorithms", "crypto/symmetric.go", strList(p, "SupportedSymmetricAlgorithms"))
-	t.Emit("crypto.SupportedAsymmetricAlgorithms", "crypto/asymmetric_enc.go", strList(p, "SupportedAsymmetricAlgorithms"))
-	t.Emit("crypto.SupportedSignatureAlgorithms", "crypto/asymmetric_sig.go", strList(p, "SupportedSignatureAlgorithms"))
+	t.EmitList("crypto.SupportedSymmetricAlgorithms", "crypto/symmetric.go", strList(p, "SupportedSymmetricAlgorithms"))
+	t.EmitList("crypto.SupportedAsymmetricAlgorithms", "crypto/asymmetric_enc.go", strList(p, "SupportedAsymmetricAlgorithms"))
+	t.EmitList("crypto.SupportedSignatureAlgorithms", "crypto/asymmetric_sig.go", strList(p, "SupportedSignatureAlgorithms"))
 
 	// the dispatch switches: algorithm name -> function it is routed to
-	t.Emit("crypto.Encrypt", "crypto/crypto.go", dispatch(p, "Encrypt", "algorithm", "Encrypt"))
-	t.Emit("crypto.Decrypt", "crypto/crypto.go", dispatch(p, "Decrypt", "algorithm", "Decrypt"))
-	t.Emit("crypto.EncryptSymmetric", "crypto/symmetric.go", dispatch(p, "EncryptSymmetric", "algorithm", "encryptSymmetric"))
-	t.Emit("crypto.DecryptSymmetric", "crypto/symmetric.go", dispatch(p, "DecryptSymmetric", "algorithm", "decryptSymmetric"))
-	t.Emit("crypto.EncryptPublicKey", "crypto/asymmetric_enc.go", dispatch(p, "EncryptPublicKey", "algorithm", "encryptPublicKey"))
-	t.Emit("crypto.DecryptPrivateKey", "crypto/asymmetric_enc.go", dispatch(p, "DecryptPrivateKey", "algorithm", "decryptPrivateKey"))
-	t.Emit("crypto.SignPrivateKey", "crypto/asymmetric_sig.go", dispatch(p, "SignPrivateKey", "algorithm", "signPrivateKey"))
-	t.Emit("crypto.VerifyPublicKey", "crypto/asymmetric_sig.go", dispatch(p, "VerifyPublicKey", "algorithm", "verifyPublicKey"))
-	t.Emit("crypto.getChaCha20Poly1305Cipher", "crypto/symmetric.go",
+	t.EmitPairs("crypto.Encrypt", "crypto/crypto.go", dispatch(p, "Encrypt", "algorithm", "Encrypt"))
+	t.EmitPairs("crypto.Decrypt", "crypto/crypto.go", dispatch(p, "Decrypt", "algorithm", "Decrypt"))
+	t.EmitPairs("crypto.EncryptSymmetric", "crypto/symmetric.go", dispatch(p, "EncryptSymmetric", "algorithm", "encryptSymmetric"))
+	t.EmitPairs("crypto.DecryptSymmetric", "crypto/symmetric.go", dispatch(p, "DecryptSymmetric", "algorithm", "decryptSymmetric"))
+	t.EmitPairs("crypto.EncryptPublicKey", "crypto/asymmetric_enc.go", dispatch(p, "EncryptPublicKey", "algorithm", "encryptPublicKey"))
+	t.EmitPairs("crypto.DecryptPrivateKey", "crypto/asymmetric_enc.go", dispatch(p, "DecryptPrivateKey", "algorithm", "decryptPrivateKey"))
+	t.EmitPairs("crypto.SignPrivateKey", "crypto/asymmetric_sig.go", dispatch(p, "SignPrivateKey", "algorithm", "signPrivateKey"))
+	t.EmitPairs("crypto.VerifyPublicKey", "crypto/asymmetric_sig.go", dispatch(p, "VerifyPublicKey", "algorithm", "verifyPublicKey"))
+	t.EmitPairs("crypto.getChaCha20Poly1305Cipher", "crypto/symmetric.go",
 		dispatch(p, "getChaCha20Poly1305Cipher", "algorithm", "chacha20poly1305.New"))
-	t.Emit("crypto.getECDSACurve", "crypto/asymmetric_sig.go", dispatch(p, "getECDSACurve", "algorithm", "elliptic."))
+	t.EmitPairs("crypto.getECDSACurve", "crypto/asymmetric_sig.go", dispatch(p, "getECDSACurve", "algorithm", "elliptic."))
 
 	// the OAEP hash given explicitly for RSA-OAEP (crypto.SHA1); the others go through getSHAHash
 	for _, fn := range []string{"EncryptPublicKey", "DecryptPrivateKey"} {
@@ -83,7 +83,7 @@ func table(t *srctab.T) {
 				}
 			}
 		}
-		t.Emit("crypto."+fn+".oaepHash", "crypto/asymmetric_enc.go", srctab.SortedPairs(out))
+		t.EmitPairs("crypto."+fn+".oaepHash", "crypto/asymmetric_enc.go", srctab.SortedPairs(out))
 	}
 
 	// getSHAHash: switch alg[len(alg)-3:] -> crypto.SHAxxx ; expectedKeySize: switch alg[1:4] -> bytes
@@ -93,14 +93,14 @@ func table(t *srctab.T) {
 			sha = append(sha, srctab.P(srctab.S(l), srctab.Str(p.Src(p.Return(c, 0)))))
 		}
 	}
-	t.Emit("crypto.getSHAHash", "crypto/crypto.go", srctab.SortedPairs(sha))
+	t.EmitPairs("crypto.getSHAHash", "crypto/crypto.go", srctab.SortedPairs(sha))
 	var ks []srctab.Val
 	for _, c := range p.Switch(p.Func("expectedKeySize"), "alg[1:4]") {
 		for _, l := range c.Labels {
 			ks = append(ks, srctab.P(srctab.S(l), srctab.Z(p.Eval(p.Return(c, 0), nil))))
 		}
 	}
-	t.Emit("crypto.expectedKeySize", "crypto/symmetric.go", srctab.SortedPairs(ks))
+	t.EmitPairs("crypto.expectedKeySize", "crypto/symmetric.go", srctab.SortedPairs(ks))
 
 	// encryptSymmetricAESCBC / decryptSymmetricAESCBC: the names treated as un-padded
 	for _, fn := range []string{"encryptSymmetricAESCBC", "decryptSymmetricAESCBC"} {
@@ -137,7 +137,7 @@ func table(t *srctab.T) {
 			ch = append(ch, srctab.P(srctab.S(l), srctab.L(srctab.Z(p.Eval(cmp.Y, nil)), srctab.Str(p.Src(ctor.Fun)))))
 		}
 	}
-	t.Emit("crypto.getAESCBCHMACCipher", "crypto/symmetric.go", srctab.SortedPairs(ch))
+	t.EmitPairs("crypto.getAESCBCHMACCipher", "crypto/symmetric.go", srctab.SortedPairs(ch))
 
 	// aescbcaead: the parameter sets of the four constructors
 	a := t.R.Pkg("crypto/aescbcaead")
